@@ -210,7 +210,14 @@ func dsKey(db, name string) string {
 	return db + "/" + name
 }
 
+func (f *fakeTarget) lookupDelay() {
+	if f.rt != nil && f.rt.c.TargetDelayUs > 0 {
+		time.Sleep(time.Duration(f.rt.rnd.Intn(f.rt.c.TargetDelayUs)) * time.Microsecond)
+	}
+}
+
 func (f *fakeTarget) GetCollectionInfo(ctx context.Context, collectionName, databaseName string) (*model.CollectionInfo, error) {
+	f.lookupDelay()
 	f.mu.Lock()
 	defer f.mu.Unlock()
 	f.calls["GetCollectionInfo"]++
@@ -230,6 +237,7 @@ func (f *fakeTarget) GetCollectionInfo(ctx context.Context, collectionName, data
 }
 
 func (f *fakeTarget) GetPartitionInfo(ctx context.Context, collectionName, databaseName string) (*model.CollectionInfo, error) {
+	f.lookupDelay()
 	f.mu.Lock()
 	defer f.mu.Unlock()
 	f.calls["GetPartitionInfo"]++
